@@ -168,7 +168,7 @@ def main():
                     t = sh("cargo test --workspace --no-fail-fast --offline 2>&1 | grep -E '^test result|error(\\[|:)' ", cwd=REPO)
                     row["tests_pass"] = ("FAILED" not in t.stdout and "error" not in t.stdout and "failed" not in t.stdout.replace("0 failed", ""))
                 t0 = time.time()
-                r = sh("python3 check.py %s --tier %s" % (m["prop"], tier), cwd=V)
+                r = sh("VERIF_EVIDENCE_DIR=/tmp/muttest-evidence python3 check.py %s --tier %s" % (m["prop"], tier), cwd=V)
                 row["exit"] = r.returncode
                 row["wall"] = round(time.time() - t0, 1)
                 vio = [l for l in r.stdout.splitlines() if l.startswith("VIOLATION") or l.strip().startswith("signature=")]
